@@ -73,7 +73,8 @@ A64Unencodable(i) ==
   ELSE IF i.op \in {"LDR", "STR"} THEN
        (IF i.a[2].off < 0 \/ i.a[2].off > 32760 \/ (i.a[2].off % 8) # 0 THEN i.op \o " offset outside 0..32760 or not a multiple of 8" ELSE "")
   ELSE IF i.op \in {"LDP", "STP"} THEN
-       (LET o == IF i.op = "LDP" THEN (IF Len(i.a) >= 4 /\ ~i.a[4].big THEN i.a[4].s ELSE 100000) ELSE i.a[3].off
+       (LET o == IF Len(i.a) = 3 THEN i.a[3].off
+                 ELSE IF i.op = "LDP" THEN (IF Len(i.a) >= 4 /\ ~i.a[4].big THEN i.a[4].s ELSE 100000) ELSE i.a[3].off
         IN IF o < -512 \/ o > 504 \/ (o % 8) # 0 THEN i.op \o " offset outside -512..504 or not a multiple of 8" ELSE "")
   ELSE IF i.op \in {"MOVZ", "MOVN", "MOVK"} THEN
        (IF i.a[2].big \/ i.a[2].s < 0 \/ i.a[2].s > 65535 THEN i.op \o " immediate outside 0..65535"
@@ -137,6 +138,11 @@ A64Step(P, s) ==
               ELSE ANext1(A64Set(s, i.a[1].r, IntV(SDiv(x.w, y.w)))))
         ELSE LET r == IF op = "ADD" THEN AddV(x, y) ELSE IF op = "SUB" THEN SubV(x, y) ELSE MulV(x, y)
              IN IF IsBad(r) THEN A64ValFail(s, r) ELSE ANext1(A64Set(s, i.a[1].r, r))
+  ELSE IF op = "MADD" THEN   \* Xd = Xa + Xn * Xm
+     LET n == A64Get(s, i.a[2].r) m == A64Get(s, i.a[3].r) a == A64Get(s, i.a[4].r)
+     IN IF IsJunk(n) \/ IsJunk(m) \/ IsJunk(a) THEN AFailS(s, "undef", "MADD on an undefined value")
+        ELSE IF n.t # "int" \/ m.t # "int" \/ a.t # "int" THEN AFailS(s, "value", "MADD on non-integer")
+        ELSE ANext1(A64Set(s, i.a[1].r, IntV(Add(a.w, Mul(n.w, m.w)))))
   ELSE IF op = "MSUB" THEN   \* Xd = Xa - Xn * Xm
      LET n == A64Get(s, i.a[2].r) m == A64Get(s, i.a[3].r) a == A64Get(s, i.a[4].r)
      IN IF IsJunk(n) \/ IsJunk(m) \/ IsJunk(a) THEN AFailS(s, "undef", "MSUB on an undefined value")
@@ -157,6 +163,18 @@ A64Step(P, s) ==
   ELSE IF op = "STR" THEN
      LET ad == A64Addr(s, i.a[2].base, i.a[2].off)
      IN IF ad[1] \in {"bad", "exhausted"} THEN A64AddrFail(s, ad) ELSE ANext1(A64Store(s, ad, A64Get(s, i.a[1].r)))
+  ELSE IF op \in {"STP", "LDP"} /\ ~i.a[3].pre /\ Len(i.a) = 3 THEN   \* signed-offset form: a pair of words at [base + off], [base + off + 8]
+     LET a1 == A64Addr(s, i.a[3].base, i.a[3].off) a2 == A64Addr(s, i.a[3].base, i.a[3].off + 8)
+     IN IF a1[1] \in {"bad", "exhausted"} THEN A64AddrFail(s, a1)
+        ELSE IF a2[1] \in {"bad", "exhausted"} THEN A64AddrFail(s, a2)
+        ELSE IF op = "STP" THEN ANext1(A64Store(A64Store(s, a1, A64Get(s, i.a[1].r)), a2, A64Get(s, i.a[2].r)))
+        ELSE ANext1(A64Set(A64Set(s, i.a[1].r, A64Load(s, a1)), i.a[2].r, A64Load(s, a2)))
+  ELSE IF op \in {"TBZ", "TBNZ"} THEN       \* test one bit and branch (no flags)
+     LET x == A64Get(s, i.a[1].r)
+     IN IF IsJunk(x) THEN AFailS(s, "undef", "conditional branch on an undefined register")
+        ELSE IF x.t # "int" \/ i.a[2].k # "imm" \/ ~SmallNat(i.a[2].w) \/ i.a[2].w[1] > 63 THEN AFailS(s, "value", op \o " on a non-integer or with a bit number outside 0..63")
+        ELSE IF i.a[3].l \notin DOMAIN P.labels THEN AFailS(s, "asm", "undefined label " \o i.a[3].l)
+        ELSE IF (Bit(x.w, i.a[2].w[1]) = 1) = (op = "TBNZ") THEN [s EXCEPT !.pc = P.labels[i.a[3].l], !.steps = s.steps + 1] ELSE ANext1(s)
   ELSE IF op = "STP" THEN   \* pre-index: SP := SP + off; store pair at SP, SP + 8
      LET sp == s.regs["SP"]
      IN IF i.a[3].base # "SP" \/ ~i.a[3].pre THEN AFailS(s, "tool", "STP form not modelled")
@@ -205,6 +223,7 @@ A64Step(P, s) ==
                IF op = "NEG" THEN Neg(x.w) ELSE IF op = "MVN" THEN Not(x.w) ELSE IF op = "AND" THEN BitAnd(x.w, y.w)
                ELSE IF op = "ORR" THEN BitOr(x.w, y.w) ELSE IF op = "EOR" THEN BitXor(x.w, y.w)
                ELSE IF op = "LSL" THEN Shl(x.w, y.w[1]) ELSE IF op = "LSR" THEN Shr(x.w, y.w[1]) ELSE Sar(x.w, y.w[1]))))
+  ELSE IF op = "NOP" THEN ANext1(s)
   ELSE IF op = "B" THEN
      IF i.a[1].l \notin DOMAIN P.labels THEN AFailS(s, "asm", "undefined label " \o i.a[1].l)
      ELSE [s EXCEPT !.pc = P.labels[i.a[1].l], !.steps = s.steps + 1]
